@@ -448,9 +448,21 @@ def run_property(prop_id, tier, instances, level="model_checking", assumptions=N
     # memory-aware parallelism: total of mem_gb must stay below ~56 GB
     memsum = max([r.inst.mem_gb for r in runs] or [1])
     jobs = max(1, min(jobs, int(56 // memsum)))
-    with ThreadPoolExecutor(max_workers=jobs) as ex:
-        list(ex.map(lambda r: r.execute(), runs))
     known = load_known(prop_id)
+    # VERIF_STOP_AFTER=n (mutation runs only, set by vlib/try_mutation.sh): do not start further instances once n
+    # instances have reported a confirmed violation that known_findings.txt does not list.  Never set for registered checks.
+    stop_after = int(os.environ.get("VERIF_STOP_AFTER", "0") or 0)
+    hit = []
+    def one(r):
+        if stop_after and len(hit) >= stop_after:
+            return
+        r.execute()
+        for f in r.failures:
+            if f.get("confirmed") and not any(fnmatch.fnmatch(r.inst.name, k["instance"]) and re.search(k["match"], finding_key(r.inst.name, f)) for k in known):
+                hit.append(r.inst.name)
+                break
+    with ThreadPoolExecutor(max_workers=jobs) as ex:
+        list(ex.map(one, runs))
     violations, inconclusive = [], []
     known_lines = []
     for r in runs:
